@@ -563,7 +563,7 @@ func runC07(c *Ctx) error {
 	}
 	// ties: two or three old files contribute the same reused-bytes figure to a new file that
 	// carries the path of one of them (which must win whatever the map order) or of none
-	nt := c.N(10, 60)
+	nt := c.N(10, 80)
 	if c.Tier == "search" { // the search after a correspondence break: a second, larger quick run
 		nt = 24
 	}
@@ -604,7 +604,7 @@ func runC07(c *Ctx) error {
 			return err
 		}
 	}
-	n := c.N(30, 500)
+	n := c.N(30, 900)
 	if c.Tier == "search" {
 		n = 70
 	}
